@@ -109,6 +109,9 @@ impl DcpsDomainParticipant {
                 let Some(subscriber) = subscriber else {
                     return Err(DdsError::AlreadyDeleted);
                 };
+                subscriber
+                    .status_condition
+                    .remove_communication_state(StatusKind::DataOnReaders);
                 let Some(data_reader) = subscriber
                     .data_reader_list
                     .iter_mut()
@@ -169,6 +172,9 @@ impl DcpsDomainParticipant {
         else {
             return Err(DdsError::AlreadyDeleted);
         };
+        subscriber
+            .status_condition
+            .remove_communication_state(StatusKind::DataOnReaders);
         let Some(data_reader) = subscriber
             .data_reader_list
             .iter_mut()
@@ -231,6 +237,9 @@ impl DcpsDomainParticipant {
         else {
             return Err(DdsError::AlreadyDeleted);
         };
+        subscriber
+            .status_condition
+            .remove_communication_state(StatusKind::DataOnReaders);
         let Some(data_reader) = subscriber
             .data_reader_list
             .iter_mut()
@@ -293,6 +302,9 @@ impl DcpsDomainParticipant {
         else {
             return Err(DdsError::AlreadyDeleted);
         };
+        subscriber
+            .status_condition
+            .remove_communication_state(StatusKind::DataOnReaders);
         let Some(data_reader) = subscriber
             .data_reader_list
             .iter_mut()
